@@ -34,7 +34,8 @@ EXHAUSTIVE_NOTE = ('the fixed product processors x selector forms x FIXED_PACKAG
 BUDGET = {'quick': dict(examples=1600, shards=16, seconds=70),
           'thorough': dict(examples=60000, shards=16, seconds=1200)}
 
-FIXED_PACKAGES = [['b'], ['a', 'ab'], ['a.b', 'a1b', 'axb'], ['a', 'ab', 'a.b', 'a-b'], ['res_1', 'res_10', 'a']]
+FIXED_PACKAGES = [['b'], ['a', 'ab'], ['a.b', 'a1b', 'axb'], ['a', 'ab', 'a.b', 'a-b'], ['res_1', 'res_10', 'a'],
+                  ['1', '2', '3'], ['2020', '2021', '-1']]       # names that look like numbers stay names
 PROCS = ['validate', 'deduplicate', 'printer', 'set_type', 'load_package', 'load_tuple', 'sort_rows', 'filter_rows',
          'unpivot', 'concatenate', 'delete_resource', 'update_resource', 'update_schema', 'set_primary_key',
          'add_field', 'add_computed_field', 'find_replace', 'select_fields', 'delete_fields', 'rename_fields', 'parallelize']
